@@ -143,7 +143,7 @@ used already and asked for triggers that random testing is unlikely to hit):
   quantifier they need (`C09-tee-recheck-only-on-exhaustion`, `C08-asend-disabled-only-by-public-aclose`).
 * round 8 (35 admitted changes for 14 properties, 5 missed at first; one rejected): see DESIGN section 13 "Round 8".
 * round 9 (22 admitted changes for 8 properties, 10 missed at first; two more rejected): see DESIGN section 13 "Round 9".
-* round 10 (34 admitted changes for 12 properties, 9 missed at first; two more rejected, one re-filed): see DESIGN section 13 "Round 10".
+* round 10 (34 admitted changes for 12 properties, 10 missed at first; two more rejected, one re-filed): see DESIGN section 13 "Round 10".
 
 | id | change | needs to manifest | detected by its property's check | also caught by |
 |----|--------|-------------------|----------------------------------|----------------|
